@@ -33,7 +33,7 @@ def run_one(prop, tier, seed, src=None, write=True, out=sys.stdout):
             selfval.run(prop, mod, ctx, s)
 
     src = (src or core.Src(core.REPO)).variant(bool(getattr(mod, "CANON", False)))
-    return core.run_property(prop, fn, tier, seed, src=src, write=write, out=out)
+    return core.run_property(prop, fn, tier, seed, src=src, write=write, out=out, mod=mod)
 
 
 def main(argv=None):
